@@ -28,7 +28,7 @@
   DOMAIN MONITOR (not Go code). GM.Table works on segments that lie inside the source with non-negative padding and no
   ForceNewline (its header; `Seg` has natural-number fields). `transformPT` answers `pre` for a paragraph with any other
   line — never in the tie; with the run-time checks of convertX the link-reference transformer in front has already
-  checked the same thing. Core Lean only.
+  checked the same thing on the same reader, so the monitor cannot fire there (GM.Proof.ConvertXMon). Core Lean only.
 -/
 import GM.Model.Blocks.DriverT
 import GM.Model.InlinesParsers
@@ -108,7 +108,8 @@ def buildTable (src : Bytes) (node : Nat) (parent : Option Nat) (para : List GM.
     so that statements about the source need no invariant of the run (GM.Blocks.runT starts from `initSt src`) -/
 def transformPT (src : Bytes) : PT := fun node => do
   let n ← getNode node
-  if !(n.lines.all (validB src)) then throw .pre            -- domain monitor
+  let rsrc ← source
+  if !(n.lines.all (validB rsrc)) then throw .pre           -- domain monitor (on the reader's own source)
   else
     match (GM.Table.transform src (n.lines.map toSeg)).table with
     | none => pure ()
